@@ -22,6 +22,9 @@ STUBS = [
     "backend_np.sum_elements -> np.array([data.sum()], dtype=object) (object .sum() returns a bare scalar)",
     "backend_np.rand -> deterministic small rationals (values are replaced by symbols in the harness)",
     "backend_np.allclose -> exact comparison deciding with the engine (forks)",
+    "backend_np.safe_svd / scipy.linalg.svd -> contract stub: fresh U,S,V; U diag(S) V == M, U^H U == I, V V^H == I, S_1>=...>=S_k>=0; same input terms -> same outputs",
+    "scipy.linalg.qr (as seen from backend_np) -> contract stub: fresh Q, upper-triangular R; Q R == M, Q^H Q == I; same input -> same outputs",
+    "scipy.linalg.eigh (as seen from backend_np) -> contract stub: fresh ascending S, U; U diag(S) U^H == M, U^H U == U U^H == I; same input -> same outputs",
 ]
 
 _installed = False
@@ -135,11 +138,6 @@ def install():
         def __getattr__(self, k):
             return getattr(self._real, k)
     bn.scipy = _ScipyShim(bn.scipy)
-    STUBS.extend([
-        "backend_np.safe_svd / scipy.linalg.svd -> contract stub: fresh U,S,V; U diag(S) V == M, U^H U == I, V V^H == I, S_1>=...>=S_k>=0",
-        "scipy.linalg.qr (as seen from backend_np) -> contract stub: fresh Q, upper-triangular R; Q R == M, Q^H Q == I",
-        "scipy.linalg.eigh (as seen from backend_np) -> contract stub: fresh ascending S, U; U diag(S) U^H == M, U^H U == U U^H == I",
-    ])
 
 
 # ----------------------------------------------------------------------------------------------------------------------
@@ -190,19 +188,67 @@ def _is_cplx(a):
 
 
 def _assume_eq(x, y):
+    """polynomial contract equation: used to decide obligations, not to prune branches (non-linear `sat` does not terminate)."""
     E = core.ENG
     xr, xi = zc(x)
     yr, yi = zc(y)
-    E.assume(xr == yr)
+    E.assume(xr == yr, feas=False)
     if not (xi is core._ZERO and yi is core._ZERO):
-        E.assume(xi == yi)
+        E.assume(xi == yi, feas=False)
 
 
 def _H(a):
     return objarray((x.conjugate() if hasattr(x, 'conjugate') else x for x in a.T.flat), a.T.shape)
 
 
+def _memo_key(kind, a):
+    parts = []
+    for x in a.flat:
+        if isinstance(x, SC):
+            parts.append((x.re.sexpr(), x.im.sexpr()))
+        elif isinstance(x, SV):
+            parts.append(x.e.sexpr())
+        else:
+            parts.append(repr(x))
+    return (kind, a.shape, tuple(parts))
+
+
+def _memo(kind, a):
+    """LAPACK is a function: the same input matrix (term-wise) on the same path gets the same outputs."""
+    E = core.ENG
+    if not hasattr(E, 'lapack_memo'):
+        E.lapack_memo = {}
+    return E.lapack_memo, _memo_key(kind, a)
+
+
 def stub_svd(a):
+    memo, key = _memo('svd', a)
+    if key in memo:
+        return tuple(x.copy() for x in memo[key])
+    out = _stub_svd(a)
+    memo[key] = tuple(x.copy() for x in out)
+    return out
+
+
+def stub_qr(a):
+    memo, key = _memo('qr', a)
+    if key in memo:
+        return tuple(x.copy() for x in memo[key])
+    out = _stub_qr(a)
+    memo[key] = tuple(x.copy() for x in out)
+    return out
+
+
+def stub_eigh(a):
+    memo, key = _memo('eigh', a)
+    if key in memo:
+        return tuple(x.copy() for x in memo[key])
+    out = _stub_eigh(a)
+    memo[key] = tuple(x.copy() for x in out)
+    return out
+
+
+def _stub_svd(a):
     LAPACK['calls'] += 1
     m, n = a.shape
     k = min(m, n)
@@ -229,7 +275,7 @@ def stub_svd(a):
     return U, S, V
 
 
-def stub_qr(a):
+def _stub_qr(a):
     LAPACK['calls'] += 1
     m, n = a.shape
     k = min(m, n)
@@ -251,7 +297,7 @@ def stub_qr(a):
     return Q, R
 
 
-def stub_eigh(a):
+def _stub_eigh(a):
     LAPACK['calls'] += 1
     n = a.shape[0]
     cplx = _is_cplx(a)
